@@ -27,6 +27,7 @@
 
    ASSUMPTIONS of the model (trusted base): `go build -o` installs the binary atomically (rename);
    what it builds is a function of the bytes it reads ([compile]); each of the steps above is atomic.
+   The commands -compile, -clean and -init are in the general system ([ginv], [gstep], [grun]) further down.
    NOT modelled: the go tool's own "target is up to date" shortcut, which READS the -o target (twice)
    before deciding to relink - see finding C20-go-build-uptodate-race in tools/notes/C20.md. *)
 From Mage Require Import Base.Strs.
@@ -66,17 +67,9 @@ Definition upd_out (fs : fsys) (d : dir) (v : option program) : fsys :=
 Definition clear_cache (fs : fsys) : fsys :=
   {| f_mf := f_mf fs; f_env := f_env fs; f_main := f_main fs; f_cache := fun _ => None; f_out := f_out fs |}.
 
-(* the command (mage/main.go:152-176 ParseAndRun):
-     CRun      `mage [-f] [-l | -h] words...`: Invoke, the compiled magefile is run with the words (-l / -h only change
-               what is handed to it)
-     CCompile  `mage -compile <out>`: Invoke with CompileOut: no cache entry, the binary goes to <out> in the directory
-     CClean    `mage -clean`: removeContents(cacheDir)
-     CInit     `mage -init`: creates magefile.go in the directory (O_EXCL), nothing shared is touched *)
-Inductive cmd := CRun | CCompile | CClean | CInit.
-
 (* one invocation: `mage [-f] args` started in directory i_dir with MAGEFILE_HASHFAST = i_hashfast,
    where `go env GOCACHE` is non-empty iff i_gocache *)
-Record inv := { i_dir : dir; i_hashfast : bool; i_gocache : bool; i_force : bool; i_args : args; i_cmd : cmd }.
+Record inv := { i_dir : dir; i_hashfast : bool; i_gocache : bool; i_force : bool; i_args : args }.
 
 Inductive pc := PStale | PList | PHash | PStat | PParse | PCreate | PWrite | PChtimes | PBuild
               | PFailRm | PRemove | PExec | PDeferRm | PExecCached | PDone.
@@ -101,8 +94,8 @@ Definition exec_result (fs : fsys) (e : ename) (D : dir) (a : args) : result :=
   | None => fail                     (* exec of a missing file: sh.ExitStatus = 1 *)
   end.
 
-(* process number i (its fresh inode is numbered S i) takes one step: a plain run *)
-Definition step_run (i : nat) (iv : inv) (fs : fsys) (p : proc) : fsys * proc :=
+(* process number i (its fresh inode is numbered S i) takes one step *)
+Definition step (i : nat) (iv : inv) (fs : fsys) (p : proc) : fsys * proc :=
   let D := i_dir iv in
   match p_pc p with
   | PStale =>
@@ -158,6 +151,45 @@ Definition step_run (i : nat) (iv : inv) (fs : fsys) (p : proc) : fsys * proc :=
   | PExecCached => (fs, with_res p PDone (exec_result fs (p_exe p) D (i_args iv)))
   | PDone => (fs, p)
   end.
+
+Record sys := { s_fs : fsys; s_procs : list proc }.
+
+Fixpoint set_nth {A} (l : list A) (i : nat) (x : A) : list A :=
+  match l, i with
+  | [], _ => []
+  | _ :: r, 0 => x :: r
+  | y :: r, S j => y :: set_nth r j x
+  end.
+
+Definition sys_step (invs : list inv) (s : sys) (i : nat) : sys :=
+  match nth_error invs i, nth_error (s_procs s) i with
+  | Some iv, Some p =>
+      let '(fs', p') := step i iv (s_fs s) p in
+      {| s_fs := fs'; s_procs := set_nth (s_procs s) i p' |}
+  | _, _ => s
+  end.
+
+Definition init (invs : list inv) (fs0 : fsys) : sys :=
+  {| s_fs := fs0; s_procs := map (fun _ => proc0) invs |}.
+
+Definition run_from (invs : list inv) (s : sys) (sched : list nat) : sys :=
+  fold_left (sys_step invs) sched s.
+Definition run (invs : list inv) (fs0 : fsys) (sched : list nat) : sys :=
+  run_from invs (init invs fs0) sched.
+
+(* (stdout, exit status) of invocation i once it has finished *)
+Definition result_of (s : sys) (i : nat) : option result :=
+  match nth_error (s_procs s) i with
+  | Some p => match p_pc p with PDone => Some (p_res p) | _ => None end
+  | None => None
+  end.
+
+(* the longest path: Stale List Hash Stat Parse Create Write Chtimes Build Remove Exec DeferRm *)
+Definition fuel : nat := 12.
+
+(* invocation i run alone: nobody else takes a step *)
+Definition alone (invs : list inv) (fs0 : fsys) (i : nat) : option result :=
+  result_of (run invs fs0 (repeat i fuel)) i.
 
 (* `mage -compile <out>`: the same Invoke with exePath = <out> inside the directory: no ExeName, the stat of
    lines 398-414 looks at <out> (and RUNS it when it exists, hash mode, no -f), the build installs <out>, and
@@ -215,11 +247,23 @@ Definition step_compile (i : nat) (iv : inv) (fs : fsys) (p : proc) : fsys * pro
   | PExec | PExecCached | PDone => (fs, goto p PDone)
   end.
 
+
+(* ---- every command (mage/main.go:152-176 ParseAndRun) ----
+     CRun      `mage [-f] [-l | -h] words...`: Invoke ([step]); -l / -h only change what is handed to the compiled magefile
+     CCompile  `mage -compile <out>`: Invoke with CompileOut ([step_compile])
+     CClean    `mage -clean`: removeContents(cacheDir)
+     CInit     `mage -init`: creates magefile.go in the directory (O_EXCL), nothing shared is touched
+   The run-only system above ([inv], [step], [run], [alone]) is the restriction of this one to CRun. *)
+Inductive cmd := CRun | CCompile | CClean | CInit.
+Record ginv := { g_inv : inv; g_cmd : cmd }.
+Definition as_run (iv : inv) : ginv := {| g_inv := iv; g_cmd := CRun |}.
+
 (* what mage itself prints when a command that runs nothing succeeds ("<cache> cleaned", "magefile.go created") is,
    like every other output, a value the harness supplies: [behave "" D args], the "program" being none *)
-Definition step (i : nat) (iv : inv) (fs : fsys) (p : proc) : fsys * proc :=
-  match i_cmd iv with
-  | CRun => step_run i iv fs p
+Definition gstep (i : nat) (g : ginv) (fs : fsys) (p : proc) : fsys * proc :=
+  let iv := g_inv g in
+  match g_cmd g with
+  | CRun => step i iv fs p
   | CCompile => step_compile i iv fs p
   | CClean =>
       match p_pc p with
@@ -233,44 +277,19 @@ Definition step (i : nat) (iv : inv) (fs : fsys) (p : proc) : fsys * proc :=
       end
   end.
 
-Record sys := { s_fs : fsys; s_procs : list proc }.
-
-Fixpoint set_nth {A} (l : list A) (i : nat) (x : A) : list A :=
-  match l, i with
-  | [], _ => []
-  | _ :: r, 0 => x :: r
-  | y :: r, S j => y :: set_nth r j x
-  end.
-
-Definition sys_step (invs : list inv) (s : sys) (i : nat) : sys :=
-  match nth_error invs i, nth_error (s_procs s) i with
-  | Some iv, Some p =>
-      let '(fs', p') := step i iv (s_fs s) p in
+Definition gsys_step (ginvs : list ginv) (s : sys) (i : nat) : sys :=
+  match nth_error ginvs i, nth_error (s_procs s) i with
+  | Some g, Some p =>
+      let '(fs', p') := gstep i g (s_fs s) p in
       {| s_fs := fs'; s_procs := set_nth (s_procs s) i p' |}
   | _, _ => s
   end.
-
-Definition init (invs : list inv) (fs0 : fsys) : sys :=
-  {| s_fs := fs0; s_procs := map (fun _ => proc0) invs |}.
-
-Definition run_from (invs : list inv) (s : sys) (sched : list nat) : sys :=
-  fold_left (sys_step invs) sched s.
-Definition run (invs : list inv) (fs0 : fsys) (sched : list nat) : sys :=
-  run_from invs (init invs fs0) sched.
-
-(* (stdout, exit status) of invocation i once it has finished *)
-Definition result_of (s : sys) (i : nat) : option result :=
-  match nth_error (s_procs s) i with
-  | Some p => match p_pc p with PDone => Some (p_res p) | _ => None end
-  | None => None
-  end.
-
-(* the longest path: Stale List Hash Stat Parse Create Write Chtimes Build Remove Exec DeferRm *)
-Definition fuel : nat := 12.
-
-(* invocation i run alone: nobody else takes a step *)
-Definition alone (invs : list inv) (fs0 : fsys) (i : nat) : option result :=
-  result_of (run invs fs0 (repeat i fuel)) i.
+Definition ginit (ginvs : list ginv) (fs0 : fsys) : sys :=
+  {| s_fs := fs0; s_procs := map (fun _ => proc0) ginvs |}.
+Definition grun (ginvs : list ginv) (fs0 : fsys) (sched : list nat) : sys :=
+  fold_left (gsys_step ginvs) sched (ginit ginvs fs0).
+Definition galone (ginvs : list ginv) (fs0 : fsys) (i : nat) : option result :=
+  result_of (grun ginvs fs0 (repeat i fuel)) i.
 
 (* ---- the declarative side ---- *)
 
@@ -300,9 +319,6 @@ Definition content_addressed (invs : list inv) (fs : fsys) : Prop :=
 Definition cache_sound (invs : list inv) (fs : fsys) : Prop :=
   forall i iv q, nth_error invs i = Some iv ->
     f_cache fs (name (f_mf fs (i_dir iv))) = Some q -> prog_of fs (i_dir iv) = Some q.
-
-(* every invocation is a plain run (mage [-f] [-l|-h] words) *)
-Definition all_run (invs : list inv) : Prop := forall i iv, nth_error invs i = Some iv -> i_cmd iv = CRun.
 
 (* an invocation that has not started or has finished *)
 Definition quiescent (p : proc) : Prop := p_pc p = PStale \/ p_pc p = PDone.
